@@ -1,4 +1,4 @@
-import HioModel.Sched.LemmasC06
+import HioModel.Sched.LemmasC06b
 /-!
 # C06 "Runtime extend/remove take effect exactly and preserve membership"
 
@@ -16,10 +16,16 @@ Vocabulary (`Sched/LemmasC06.lean`):
 * `rmHit ids c d` — deed `d` is hit by `remove(ids)`: `d.id ∈ ids` and `d.id ∈ c.doers`.
 * `Op.allRemove ops` — every op of the list is a `remove`.
 
-"First recur in the next cycle" is proved as: the new deed is queued right of the marker with retyme `now`
-(`extend_queues_right_of_marker`) and a cycle resumes only doers left of the marker
-(`cycle_resumes_only_left_of_marker`, `extend_runs_next_cycle`).  That it *is* resumed in the next cycle needs
-`now ≤ now + tock`, which the abstract time type does not provide; it is not claimed here.
+"First recur in the next cycle" is proved in two halves.  Not in the current cycle: the new deed is queued right
+of the marker with retyme `now` (`extend_queues_right_of_marker`) and a cycle resumes only doers left of the marker
+(`cycle_resumes_only_left_of_marker`, `extend_runs_next_cycle`).  In the next cycle: a deed that is due and left of
+the marker IS resumed (`due_head_recurs`, `due_deed_recurs`), hence so is an extended deed in any later cycle of
+that scheduler at `now' ≥ now` in whose deque it still is (`extended_doer_recurs_next_cycle`; for the Doist, whose
+next cycle runs at `now + tock`, under `LawfulTyme τ` (Sched/TimeDefs.lean) and `0 ≤ tock`:
+`extended_doer_recurs_next_doist_cycle`).  "Unless removed before / no earlier deed raises" is stated on the outcome
+of that cycle: it returned no exception, and the deed's id is not in its final `gone` set (ids closed by a `remove`
+while still left of the marker; `gone` only grows during a cycle).  Not claimed: anything for a time type violating
+`LawfulTyme` (e.g. a negative tock).
 -/
 namespace Hio.Sched
 variable {τ : Type}
@@ -175,6 +181,54 @@ theorem self_remove_keeps_running (pool : List (Spec τ)) (now stock : τ) (sid 
   exact foldl_remove_self pool i ops c.doers hops hself
 end cyc
 
+/-! ### (2, second half) a due deed left of the marker is resumed -/
+section due
+variable [Add τ] [LE τ] [DecidableRel (α := τ) (· ≤ ·)] [OfNat τ 0] [BEq τ]
+
+/-- a due deed at the head of the unvisited part, whose id was not closed by a `remove` earlier in the cycle, is
+resumed first thing (leaf or DoDoer) -/
+theorem due_head_recurs (pool : List (Spec τ)) (now stock : τ) (sid : Id) (d : RT τ) (un : List (RT τ)) (c : Cyc τ)
+    (hdue : d.retyme ≤ now) (hg : c.gone.contains d.id = false) :
+    ∃ rest, (runCycle pool now stock sid (d :: un) c).1 = ev d.id .recur now :: rest :=
+  runCycle_head_recur pool now stock sid d un c hdue hg
+
+/-- a due deed anywhere left of the marker is resumed in this cycle, provided the cycle is not stopped by an
+exception (no earlier deed raises) and the deed's id is not closed by a `remove` during the cycle -/
+theorem due_deed_recurs (pool : List (Spec τ)) (now stock : τ) (sid : Id) (d : RT τ) (un : List (RT τ)) (c : Cyc τ)
+    (hdue : d.retyme ≤ now) (hmem : d ∈ un)
+    (hx : (runCycle pool now stock sid un c).2.2.2 = none)
+    (hg : (runCycle pool now stock sid un c).2.2.1.gone.contains d.id = false) :
+    ev d.id .recur now ∈ (runCycle pool now stock sid un c).1 :=
+  runCycle_due_recurs pool now stock sid d hdue un c hmem hx hg
+
+/-- (2) every deed an `extend` at `now` queued is resumed in any later cycle (`now ≤ now'`) of a scheduler whose
+deque still holds it, unless that cycle is stopped by an exception or removes it before its turn -/
+theorem extended_doer_recurs_next_cycle (pool : List (Spec τ)) (now : τ) (ks : List Nat) (c c' : Cyc τ)
+    (es : List (Ev τ)) (raised : Bool) (h : extendList pool now ks c = (es, c', raised)) :
+    ∃ news, c'.pr = c.pr ++ news ∧ ∀ d ∈ news,
+      ∀ (pool' : List (Spec τ)) (now' stock : τ) (sid : Id) (deeds' : List (RT τ)) (c0 : Cyc τ),
+        now ≤ now' → d ∈ deeds' →
+        (runCycle pool' now' stock sid deeds' c0).2.2.2 = none →
+        (runCycle pool' now' stock sid deeds' c0).2.2.1.gone.contains d.id = false →
+        ev d.id .recur now' ∈ (runCycle pool' now' stock sid deeds' c0).1 := by
+  obtain ⟨_, news, hpr, hn⟩ := extendList_pr pool now ks c h
+  refine ⟨news, hpr, fun d hd pool' now' stock sid deeds' c0 hle hmem hx hg => ?_⟩
+  exact runCycle_due_recurs pool' now' stock sid d (by rw [hn d hd]; exact hle) deeds' c0 hmem hx hg
+
+/-- (2) the Doist corollary: the next cycle runs at `now + tock`; with lawful time and `0 ≤ tock` the extended deed
+is due then -/
+theorem extended_doer_recurs_next_doist_cycle [LawfulTyme τ] (pool : List (Spec τ)) (now tock : τ) (htock : 0 ≤ tock)
+    (ks : List Nat) (c c' : Cyc τ) (es : List (Ev τ)) (raised : Bool)
+    (h : extendList pool now ks c = (es, c', raised)) :
+    ∃ news, c'.pr = c.pr ++ news ∧ ∀ d ∈ news, ∀ (deeds' : List (RT τ)) (doers' : List Id), d ∈ deeds' →
+      (runCycle pool (now + tock) tock 0 deeds' { doers := doers' }).2.2.2 = none →
+      (runCycle pool (now + tock) tock 0 deeds' { doers := doers' }).2.2.1.gone.contains d.id = false →
+      ev d.id .recur (now + tock) ∈ (runCycle pool (now + tock) tock 0 deeds' { doers := doers' }).1 := by
+  obtain ⟨news, hpr, hn⟩ := extended_doer_recurs_next_cycle pool now ks c c' es raised h
+  exact ⟨news, hpr, fun d hd deeds' doers' hmem hx hg =>
+    hn d hd pool (now + tock) tock 0 deeds' _ (LawfulTyme.le_add now tock htock) hmem hx hg⟩
+end due
+
 /-! ### non-vacuity (τ := Nat); the `decide`d facts are tests of the model, not part of the claims -/
 section examples
 private def exPool : List (Spec Nat) := [.leaf 10 .ok [], .leaf 11 .ok [], .leaf 12 .fail []]
@@ -232,6 +286,15 @@ example : ((runCycle exPool 5 1 0 (.leaf 7 0 [⟨[.extend [0]], .yieldT none⟩]
        (1, .recur), (1, .clean), (1, .exit), (1, .flag true)]
     ∧ (runCycle exPool 5 1 0 (.leaf 7 0 [⟨[.extend [0]], .yieldT none⟩] :: exUn) { doers := [1, 7] }).2.2.1.pr.map RT.id
         = [10, 7] := by decide
+-- extended_doer_recurs_next_doist_cycle: the deed `extend [0]` queues at 5 is `.leaf 10 5 []`; the Doist's next cycle
+-- (tyme 6, `0 ≤ 1`) over the deque left by the extend cycle above returns no exception and does not remove 10
+example : (extendList exPool 5 [0] { doers := [1, 7] }).2.1.pr = [.leaf 10 5 []] := rfl
+example : (0 : Nat) ≤ 1 ∧ (runCycle exPool (5 + 1) 1 0 [.leaf 10 5 [], .leaf 7 6 []] { doers := [1, 7, 10] }).2.2.2 = none
+    ∧ (runCycle exPool (5 + 1) 1 0 [.leaf 10 5 [], .leaf 7 6 []] { doers := [1, 7, 10] }).2.2.1.gone.contains 10 = false := by
+  decide
+-- test: and indeed 10 recurs at 6
+example : ((runCycle exPool (5 + 1) 1 0 [.leaf 10 5 [], .leaf 7 6 []] { doers := [1, 7, 10] }).1.map
+      (fun e => (e.id, e.kind, e.tyme))).take 1 = [(10, .recur, 6)] := by decide
 end examples
 
 end Hio.Sched
